@@ -354,7 +354,10 @@ func (n *Node) Do(q *Query) (r *Reply) {
 	if q.Proto == "https" {
 		n.doHTTPS(q, req, r)
 	} else {
-		d := &proxy.DNSContext{Req: req, Addr: q.Addr, RequestID: n.seq}
+		// The context comes from dnsproxy's own constructor, which assigns
+		// the RequestID from the proxy's counter exactly as the listeners do
+		// (DoH requests get theirs the same way inside ServeHTTP).
+		d := proxyNewDNSContext(n.Proxy, proxy.ProtoUDP, req, q.Addr)
 		var (
 			conn *fakeConn
 			qs   *fakeQUICStream
